@@ -4,6 +4,9 @@
 #   usage: run_daemon.sh <binary> [--max-drift-rate X]
 #   CB_PRIOR_PPB=<n> : the daemon restarts over a valid segment left by a previous instance whose
 #                      live (Synchronized) record carries max_drift_ppb = n, generation 10
+#   CB_PHC=1         : the daemon is also given --phc-ref-id PHC0 --phc-interface <a name that resolves, inside the
+#                      private /run, to a fake uevent file with a PCI_SLOT_NAME>: the PHC options must not
+#                      change the published rate
 # output: "ok <ppb>" | "refused <exit code>" | "rejected" (clap usage error, exit 2) | "timeout"
 BIN="$1"; shift
 exec unshare -m sh -c '
@@ -21,6 +24,11 @@ hdr = struct.pack("=IIIHH", 0x414D5A4E, 0x43420200, 72, 1, 10)
 open("/run/clockbound/shm", "wb").write(hdr + rec + b"\0" * (72 - 16 - len(rec)))
 PY
   prior_gen=10
+fi
+if [ -n "$CB_PHC" ]; then
+  mkdir -p /run/fakeif/device
+  printf "DRIVER=ena\nPCI_SLOT_NAME=0000:00:05.0\n" > /run/fakeif/device/uevent
+  set -- "$@" --phc-ref-id PHC0 --phc-interface ../../../run/fakeif
 fi
 "$BIN" "$@" >/run/cb.log 2>&1 &
 pid=$!
